@@ -191,6 +191,14 @@ func (g *G) REMB() V {
 // TWCC builds a well-formed feedback from a random status sequence and a
 // random valid chunking of it.
 func (g *G) TWCC() V {
+	if g.R.Intn(12) == 0 { // status counts near 2^16: mostly not received, a few received at the end
+		n := g.Pick(57340, 57345, 60000, 65528, 65534, 65535)
+		st := make([]int, n)
+		for i := n - g.Int(1, 9); i < n; i++ {
+			st[i] = g.Pick(1, 2)
+		}
+		return g.TWCCFrom(st, 1)
+	}
 	n := g.Pick(0, 1, 2, 3, 6, 7, 8, 13, 14, 15, 20, 21, 28, g.R.Intn(40))
 	st := make([]int, n)
 	mode := g.R.Intn(4)
@@ -241,11 +249,14 @@ func (g *G) TWCCFrom(st []int, style int) V {
 		switch choice {
 		case 1:
 			r := run
+			if r > 8191 {
+				r = 8191
+			}
 			if style == 0 && r > 1 && g.R.Intn(3) == 0 {
 				r = 1 + g.R.Intn(r)
 			}
 			wire := r
-			if i+r == n && g.R.Intn(3) == 0 {
+			if i+r == n && (g.R.Intn(3) == 0 || n > 50000) {
 				wire = r + g.Pick(1, 100, 8191-r) // run-length overshoot is clipped by the count
 				if wire > 8191 {
 					wire = 8191
